@@ -419,3 +419,28 @@ Proof.
       + apply Nat.leb_gt in E9. assert (length x = 0) by lia. destruct x; [apply z6_of_nil, Hb|discriminate]. }
   rewrite Hc. reflexivity.
 Qed.
+
+(* ---------- zuc_generate_keystream / zuc_generate_keyword: splitting the request ---------- *)
+(* one call for n+m words = a call for n words followed by a call for m words on the state left behind *)
+Lemma zuc_keystream_app n m s :
+  zuc_keystream (n + m) s =
+  let '(s1, z1) := zuc_keystream n s in
+  let '(s2, z2) := zuc_keystream m s1 in (s2, z1 ++ z2).
+Proof.
+  revert s. induction n as [|n IH]; intros s.
+  - cbn [Nat.add zuc_keystream]. destruct (zuc_keystream m s); reflexivity.
+  - cbn [Nat.add zuc_keystream]. destruct (zuc_keyword s) as [s1 z]. rewrite IH.
+    destruct (zuc_keystream n s1) as [s2 zs]. destruct (zuc_keystream m s2) as [s3 zs']. reflexivity.
+Qed.
+
+(* zuc_generate_keyword is the one-word case of zuc_generate_keystream *)
+Lemma zuc_keystream_one s :
+  zuc_keystream 1 s = let '(s1, z) := zuc_keyword s in (s1, [z]).
+Proof. cbn [zuc_keystream]. destruct (zuc_keyword s); reflexivity. Qed.
+
+Lemma zuc_keystream_length n s : length (snd (zuc_keystream n s)) = n.
+Proof.
+  revert s. induction n as [|n IH]; intros s; [reflexivity|].
+  cbn [zuc_keystream]. destruct (zuc_keyword s) as [s1 z]. specialize (IH s1).
+  destruct (zuc_keystream n s1) as [s2 zs]. cbn [snd length] in *. congruence.
+Qed.
